@@ -1,4 +1,5 @@
 import ast
+import copy
 from typing import Any, Dict, List, Optional, Tuple
 
 from func_adl.ast.func_adl_ast_utils import FuncADLNodeTransformer
@@ -69,6 +70,15 @@ def remove_empty_metadata(a: ast.AST) -> ast.AST:
     """
 
     class _cleaner(ast.NodeTransformer):
+        def generic_visit(self, node: ast.AST) -> ast.AST:
+            # `NodeTransformer` edits nodes in place: work on a shallow copy (which keeps
+            # any extra attributes hung on the node) so the caller's AST is left untouched.
+            node = copy.copy(node)
+            for field, value in ast.iter_fields(node):
+                if isinstance(value, list):
+                    setattr(node, field, list(value))
+            return super().generic_visit(node)
+
         def visit_Call(self, node: ast.Call):
             n = self.generic_visit(node)
             assert isinstance(n, ast.Call)
